@@ -2,7 +2,11 @@
 //! Drives the REAL `emit::Frame::{push, root, disabled, current}` × `{enter, with, EnterGuard::with, call, in_fn,
 //! in_future}` over the REAL `ThreadLocalCtxt` (two `new()` instances + `shared()`), as the concrete type, as
 //! `Arc<dyn ErasedCtxt + Send + Sync>` (inline erased frames), through a wide-frame wrapper (boxed erased frames) and
-//! as `Option<ThreadLocalCtxt>`.
+//! as `Option<ThreadLocalCtxt>` (`Some` and `None`), through every forwarding wrapper, through
+//! `emit_traceparent::TraceparentCtxt<ThreadLocalCtxt>` (variant `tp`) and through a user `Ctxt` that implements only the
+//! REQUIRED trait methods, so that the trait-default `Ctxt::open_push` / `open_disabled` run (`defpush`, `defpushdyn`).
+//! `(new .. reent)` pushes a `Props` value whose enumeration calls `ctxt.with_current` (re-entrancy); `(parts F)` takes
+//! a frame apart with `Frame::into_parts` and rebuilds it with `Frame::from_parts` (+ `inner`, `inner_mut`).
 //!
 //! A case is a tree program (format: lean/EmitModel/Driver/C03.lean). It is executed by three ACTOR THREADS: exactly
 //! one of them runs at any time (a thread that hands work to another actor waits for its reply, serving requests
@@ -63,12 +67,13 @@ type PropList = Vec<(String, Val)>;
 
 enum P {
     Obs(usize),
-    New { f: u64, c: usize, kind: Kind, props: PropList },
+    New { f: u64, c: usize, kind: Kind, props: PropList, reent: bool },
     Use { f: u64, mode: Mode, body: Arc<Vec<P>> },
     On(usize, Arc<Vec<P>>),
     Catch(Arc<Vec<P>>),
     Panic,
     Drop(u64),
+    Parts(u64),
     Tasks(Vec<Arc<Vec<A>>>, Vec<(usize, usize)>),
 }
 
@@ -161,12 +166,21 @@ fn parse_p(s: &Sexp) -> Option<P> {
     let (tag, a) = s.as_tagged()?;
     Some(match (tag, a.len()) {
         ("obs", 1) => P::Obs(ctxt_ix(&a[0])?),
-        ("new", 4) => P::New { f: a[0].as_u64()?, c: ctxt_ix(&a[1])?, kind: parse_kind(&a[2])?, props: parse_props(&a[3])? },
+        ("new", 4) => P::New { f: a[0].as_u64()?, c: ctxt_ix(&a[1])?, kind: parse_kind(&a[2])?, props: parse_props(&a[3])?, reent: false },
+        ("new", 5) if a[4].as_atom() == Some("reent") => {
+            let kind = parse_kind(&a[2])?;
+            // a disabled / current frame never enumerates its props on most ctxts: nothing to compare
+            if !matches!(kind, Kind::Push | Kind::Root) {
+                return None;
+            }
+            P::New { f: a[0].as_u64()?, c: ctxt_ix(&a[1])?, kind, props: parse_props(&a[3])?, reent: true }
+        }
         ("use", n) if n >= 2 => P::Use { f: a[0].as_u64()?, mode: parse_mode(&a[1])?, body: parse_list(&a[2..], parse_p)? },
         ("on", n) if n >= 1 => P::On(thread(&a[0])?, parse_list(&a[1..], parse_p)?),
         ("catch", _) => P::Catch(parse_list(a, parse_p)?),
         ("panic", 0) => P::Panic,
         ("drop", 1) => P::Drop(a[0].as_u64()?),
+        ("parts", 1) => P::Parts(a[0].as_u64()?),
         ("tasks", 2) => {
             let mut ts = Vec::new();
             for t in a[0].as_list()? {
@@ -331,12 +345,106 @@ struct World<C: Ctxt> {
     actors: Arc<Actors>,
 }
 
-trait Cx: Ctxt + Clone + Send + Sync + 'static
+trait Cx: PeekCx + Clone + Send + Sync + 'static
 where
     Self::Frame: Send + 'static,
 {
 }
-impl<C: Ctxt + Clone + Send + Sync + 'static> Cx for C where C::Frame: Send + 'static {}
+impl<C: PeekCx + Clone + Send + Sync + 'static> Cx for C where C::Frame: Send + 'static {}
+
+/// What a raw `Ctxt::Frame` that is not entered holds, where the frame type lets one look (`None`: opaque).
+pub trait PeekCx: Ctxt {
+    fn peek(frame: &Self::Frame) -> Option<String>;
+}
+impl PeekCx for ThreadLocalCtxt {
+    fn peek(frame: &Self::Frame) -> Option<String> {
+        Some(render_props(frame, &mut Vec::new()))
+    }
+}
+impl PeekCx for Minimal {
+    fn peek(frame: &Self::Frame) -> Option<String> {
+        Some(render_props(frame, &mut Vec::new()))
+    }
+}
+impl PeekCx for Wide {
+    fn peek(frame: &Self::Frame) -> Option<String> {
+        Some(render_props(&frame.0, &mut Vec::new()))
+    }
+}
+impl<C: PeekCx> PeekCx for Option<C> {
+    fn peek(frame: &Self::Frame) -> Option<String> {
+        match frame {
+            Some(f) => C::peek(f),
+            None => Some("none".into()),
+        }
+    }
+}
+impl<'a, C: PeekCx + ?Sized> PeekCx for &'a C {
+    fn peek(frame: &Self::Frame) -> Option<String> {
+        C::peek(frame)
+    }
+}
+impl<C: PeekCx + ?Sized> PeekCx for Box<C> {
+    fn peek(frame: &Self::Frame) -> Option<String> {
+        C::peek(frame)
+    }
+}
+impl<C: PeekCx + ?Sized> PeekCx for Arc<C> {
+    fn peek(frame: &Self::Frame) -> Option<String> {
+        C::peek(frame)
+    }
+}
+impl<C: PeekCx> PeekCx for emit::runtime::AssertInternal<C> {
+    fn peek(frame: &Self::Frame) -> Option<String> {
+        C::peek(frame)
+    }
+}
+impl PeekCx for dyn ErasedCtxt + Send + Sync {
+    fn peek(_: &Self::Frame) -> Option<String> {
+        None
+    }
+}
+impl<C: Ctxt> PeekCx for emit_traceparent::TraceparentCtxt<C> {
+    fn peek(_: &Self::Frame) -> Option<String> {
+        None
+    }
+}
+
+/// A `Props` value whose enumeration RE-ENTERS the context it is being pushed onto: every `for_each` first calls
+/// `ctxt.with_current`. The first view seen is recorded as an observation (how often `open_*` enumerates its props
+/// is the ctxt's business); every later one must equal it.
+struct Reentrant<'a, C: Cx, Q: Props>
+where
+    C::Frame: Send + 'static,
+{
+    w: &'a World<C>,
+    ctxt: &'a C,
+    inner: Q,
+    seen: RefCell<Option<String>>,
+}
+
+impl<'a, C: Cx, Q: Props> Props for Reentrant<'a, C, Q>
+where
+    C::Frame: Send + 'static,
+{
+    fn for_each<'kv, F: FnMut(emit::Str<'kv>, emit::Value<'kv>) -> ControlFlow<()>>(&'kv self, for_each: F) -> ControlFlow<()> {
+        let mut fails = Vec::new();
+        let line = self.ctxt.with_current(|cur| render_props(cur, &mut fails));
+        let first = self.seen.borrow().clone();
+        match first {
+            None => {
+                *self.seen.borrow_mut() = Some(line.clone());
+                self.w.log.lock().unwrap().push(line);
+            }
+            Some(first) if first != line => fails.push(format!("reentrant-view-changed({}->{})", first, line)),
+            Some(_) => {}
+        }
+        if !fails.is_empty() {
+            self.w.fails.lock().unwrap().extend(fails);
+        }
+        self.inner.for_each(for_each)
+    }
+}
 
 pub fn render_value(v: &emit::Value) -> String {
     if let Some(s) = v.to_cow_str() {
@@ -396,7 +504,7 @@ where
         r
     }
 
-    fn make_frame(&self, c: usize, kind: Kind, props: &PropList) -> Frame<C> {
+    fn make_frame(&self, c: usize, kind: Kind, props: &PropList, reent: bool) -> Frame<C> {
         let ctxt = self.ctxts[c].clone();
         let vals: Vec<(&str, emit::Value)> = props
             .iter()
@@ -410,6 +518,15 @@ where
                 )
             })
             .collect();
+        if reent {
+            let re = Reentrant { w: self, ctxt: &self.ctxts[c], inner: &vals[..], seen: RefCell::new(None) };
+            return match kind {
+                Kind::Push => Frame::push(ctxt, &re),
+                Kind::Root => Frame::root(ctxt, &re),
+                Kind::Disabled => Frame::disabled(ctxt, &re),
+                Kind::Current => Frame::current(ctxt),
+            };
+        }
         // different `Props` containers for the same pairs: tuple, array, slice
         macro_rules! open {
             ($ctor:path) => {
@@ -465,8 +582,8 @@ where
 {
     match p {
         P::Obs(c) => w.ctxts[*c].with_current(|cur| w.observe_props(cur)),
-        P::New { f, c, kind, props } => {
-            let frame = w.make_frame(*c, *kind, props);
+        P::New { f, c, kind, props, reent } => {
+            let frame = w.make_frame(*c, *kind, props, *reent);
             if w.frames.lock().unwrap().insert(*f, frame).is_some() {
                 w.set_bad();
             }
@@ -510,6 +627,21 @@ where
         }
         P::Panic => panic!("scripted panic"),
         P::Drop(f) => drop(w.take(*f)),
+        P::Parts(f) => {
+            let Some(mut frame) = w.take(*f) else { return };
+            // what the frame holds, seen through `inner` / `inner_mut`, the raw parts, and the rebuilt frame
+            let before = C::peek(frame.inner());
+            let before_mut = C::peek(frame.inner_mut());
+            let (ctxt, raw) = frame.into_parts();
+            let apart = C::peek(&raw);
+            let mut frame = Frame::from_parts(ctxt, raw);
+            let after = C::peek(frame.inner_mut());
+            let after_ref = C::peek(frame.inner());
+            if [&before_mut, &apart, &after, &after_ref].iter().any(|x| **x != before) {
+                w.fails.lock().unwrap().push(format!("parts-differ({:?},{:?},{:?},{:?},{:?})", before, before_mut, apart, after, after_ref));
+            }
+            w.frames.lock().unwrap().insert(*f, frame);
+        }
         P::Tasks(ts, sched) => {
             let futs: Arc<Mutex<Vec<Option<BoxFut>>>> =
                 Arc::new(Mutex::new(ts.iter().map(|t| Some(run_async(w.clone(), t.clone()))).collect()));
@@ -543,7 +675,7 @@ where
                 A::Sync(ps) => run_list(&w, ps),
                 A::Yield => YieldOnce(false).await,
                 A::AFrame { c, kind, props, body } => {
-                    let frame = w.make_frame(*c, *kind, props);
+                    let frame = w.make_frame(*c, *kind, props, false);
                     frame.in_future(run_async(w.clone(), body.clone())).await
                 }
                 A::AUse(f, body) => {
@@ -647,6 +779,32 @@ impl Ctxt for Wide {
     }
 }
 
+/// A user `Ctxt` that implements only the REQUIRED methods (each delegating to the real `ThreadLocalCtxt`): `open_push`
+/// and `open_disabled` are the trait defaults of core/src/ctxt.rs:39-52.
+#[derive(Clone, Copy)]
+pub struct Minimal(pub ThreadLocalCtxt);
+
+impl Ctxt for Minimal {
+    type Current = ThreadLocalCtxtFrame;
+    type Frame = ThreadLocalCtxtFrame;
+
+    fn open_root<Q: Props>(&self, props: Q) -> Self::Frame {
+        self.0.open_root(props)
+    }
+    fn enter(&self, frame: &mut Self::Frame) {
+        self.0.enter(frame)
+    }
+    fn with_current<R, F: FnOnce(&Self::Current) -> R>(&self, with: F) -> R {
+        self.0.with_current(with)
+    }
+    fn exit(&self, frame: &mut Self::Frame) {
+        self.0.exit(frame)
+    }
+    fn close(&self, frame: Self::Frame) {
+        self.0.close(frame)
+    }
+}
+
 type Dyn = Arc<dyn ErasedCtxt + Send + Sync>;
 type DynRef = &'static (dyn ErasedCtxt + Send + Sync);
 
@@ -669,8 +827,27 @@ fn leak<T>(v: T) -> &'static T {
 }
 
 /// the wrapper / variant names a case line may carry
-pub const VARIANTS: [&str; 12] =
-    ["concrete", "erased", "boxed", "option", "assert", "assertdyn", "ref", "box", "arc", "boxdyn", "slot", "assertarc"];
+pub const VARIANTS: [&str; 16] = [
+    "concrete", "erased", "boxed", "option", "assert", "assertdyn", "ref", "box", "arc", "boxdyn", "slot", "assertarc", "tp", "defpush",
+    "defpushdyn", "optnone",
+];
+
+fn has_span_id(ps: &[P]) -> bool {
+    fn in_a(a: &[A]) -> bool {
+        a.iter().any(|a| match a {
+            A::Sync(ps) => has_span_id(ps),
+            A::Yield => false,
+            A::AFrame { props, body, .. } => props.iter().any(|(k, _)| k == "span_id") || in_a(body),
+            A::AUse(_, body) => in_a(body),
+        })
+    }
+    ps.iter().any(|p| match p {
+        P::New { props, .. } => props.iter().any(|(k, _)| k == "span_id"),
+        P::Use { body, .. } | P::On(_, body) | P::Catch(body) => has_span_id(body),
+        P::Tasks(ts, _) => ts.iter().any(|t| in_a(t)),
+        _ => false,
+    })
+}
 
 fn run_c03(line: &str) -> String {
     (|| -> Option<String> {
@@ -704,6 +881,17 @@ fn run_c03(line: &str) -> String {
                 prog,
             ),
             "slot" => run_with::<DynRef>(slot_ctxts(), prog),
+            // `TraceparentCtxt` claims `span_id` (it opens a traceparent for it): outside "ordinary props"
+            "tp" if has_span_id(&prog) => return None,
+            "tp" => run_with::<emit_traceparent::TraceparentCtxt<ThreadLocalCtxt>>(
+                base.iter().map(|c| emit_traceparent::TraceparentCtxt::new(*c)).collect(),
+                prog,
+            ),
+            // the trait-default `open_push` / `open_disabled`
+            "defpush" => run_with::<Minimal>(base.iter().map(|c| Minimal(*c)).collect(), prog),
+            "defpushdyn" => run_with::<Dyn>(base.iter().map(|c| Arc::new(Minimal(*c)) as Dyn).collect(), prog),
+            // `Option::None`: every frame operation is a no-op, the view is always empty
+            "optnone" => run_with::<Option<ThreadLocalCtxt>>(vec![None, None, None], prog),
             _ => return None,
         })
     })()
@@ -714,9 +902,9 @@ fn run_c03(line: &str) -> String {
 
 const KEYS: [&str; 7] = ["a", "b", "c", "k", "trace_id", "span_id", "é"];
 
-pub fn gen_props(rng: &mut Rng, max: usize) -> Sexp {
+pub fn gen_props(rng: &mut Rng, max: usize, no_span_id: bool) -> Sexp {
     let n = rng.usize(max + 1);
-    let mut keys: Vec<&str> = KEYS.to_vec();
+    let mut keys: Vec<&str> = KEYS.iter().copied().filter(|k| !(no_span_id && *k == "span_id")).collect();
     let mut items = Vec::new();
     for _ in 0..n {
         let k = keys.remove(rng.usize(keys.len()));
@@ -736,6 +924,8 @@ struct Gen<'a> {
     budget: i64,
     max_depth: usize,
     nthreads: u64,
+    /// the variant is `tp`: the key `span_id` is not an ordinary property there
+    no_span_id: bool,
 }
 
 /// a frame handle in scope: (handle, its context)
@@ -766,7 +956,33 @@ impl<'a> Gen<'a> {
         self.next_f
     }
     fn new_frame(&mut self, f: u64, c: u64) -> Sexp {
-        Sexp::tagged("new", vec![Sexp::num(f), Sexp::num(c), Sexp::atom(self.kind()), gen_props(self.rng, 3)])
+        let kind = self.kind();
+        let mut items = vec![Sexp::num(f), Sexp::num(c), Sexp::atom(kind), gen_props(self.rng, 3, self.no_span_id)];
+        // a props value that looks at the context while `open_*` enumerates it
+        if matches!(kind, "push" | "root") && self.rng.chance(1, 6) {
+            items.push(Sexp::atom("reent"));
+        }
+        Sexp::tagged("new", items)
+    }
+
+    /// A frame made on this thread is carried to a worker whose FIRST touch of the context is entering it; the worker
+    /// then looks at the context after the frame was left, pushes a frame of its own there, and looks again.
+    fn first_touch(&mut self, idle: &mut Idle) -> Vec<Sexp> {
+        let c = self.ctxt();
+        let (f, g) = (self.fresh(), self.fresh());
+        let t = 1 + self.rng.below(2);
+        let mode = if self.rng.bool() { Sexp::atom("enter") } else { Sexp::atom("with") };
+        let mut out = vec![self.new_frame(f, c)];
+        let mut on = vec![Sexp::num(t), Sexp::tagged("use", vec![Sexp::num(f), mode, Sexp::tagged("obs", vec![Sexp::num(c)])]), Sexp::tagged("obs", vec![Sexp::num(c)])];
+        on.push(self.new_frame(g, c));
+        on.push(Sexp::tagged("use", vec![Sexp::num(g), Sexp::atom("enter"), Sexp::tagged("obs", vec![Sexp::num(c)])]));
+        on.push(Sexp::tagged("obs", vec![Sexp::num(c)]));
+        out.push(Sexp::tagged("on", on));
+        out.push(Sexp::tagged("obs", vec![Sexp::num(c)]));
+        idle.push((f, c));
+        idle.push((g, c));
+        self.budget -= 6;
+        out
     }
     fn mode(&mut self) -> (Sexp, bool) {
         match self.rng.below(8) {
@@ -851,6 +1067,11 @@ impl<'a> Gen<'a> {
                     let (f, _) = idle.remove(self.rng.usize(idle.len()));
                     out.push(Sexp::tagged("drop", vec![Sexp::num(f)]));
                 }
+                // taken apart and rebuilt: stays usable
+                18 if !idle.is_empty() => {
+                    let (f, _) = idle[self.rng.usize(idle.len())];
+                    out.push(Sexp::tagged("parts", vec![Sexp::num(f)]));
+                }
                 19 if deep => out.push(self.tasks(depth + 1, idle)),
                 _ => out.push(self.obs(focus)),
             }
@@ -891,7 +1112,7 @@ impl<'a> Gen<'a> {
                     polls += p;
                     out.push(Sexp::tagged(
                         "aframe",
-                        [vec![Sexp::num(f), Sexp::num(c), Sexp::atom(self.kind()), gen_props(self.rng, 3)], body].concat(),
+                        [vec![Sexp::num(f), Sexp::num(c), Sexp::atom(self.kind()), gen_props(self.rng, 3, self.no_span_id)], body].concat(),
                     ));
                 }
                 9 if depth < self.max_depth && !mine.is_empty() => {
@@ -958,9 +1179,12 @@ fn gen_c03(rng: &mut Rng, tier: Tier, n: usize) -> Vec<String> {
         let variant = if rng.chance(1, 3) { *rng.pick(&["concrete", "erased", "boxed"]) } else { *rng.pick(&VARIANTS) };
         let nthreads = 1 + rng.below(NTHREADS as u64);
         let budget = if tier == Tier::Thorough { 20 + rng.below(60) as i64 } else { 8 + rng.below(33) as i64 };
-        let mut g = Gen { rng: &mut *rng, next_f: 0, budget, max_depth: 6, nthreads };
+        let mut g = Gen { rng: &mut *rng, next_f: 0, budget, max_depth: 6, nthreads, no_span_id: variant == "tp" };
         let mut idle = Vec::new();
         let mut items = Vec::new();
+        if g.rng.chance(1, 8) {
+            items.extend(g.first_touch(&mut idle));
+        }
         // several top-level blocks so the budget is used
         while g.budget > 0 {
             let (b, p) = g.block(0, &mut idle, false, 1);
